@@ -47,7 +47,7 @@ KNOWN: dict[tuple[str, str, str], int] = {
     ("visit/endpoint/endpoint_visitor.py", "generate_endpoint_mock_class", "Mock implementation of {class_name} for testing."): 0,
     ("visit/endpoint/endpoint_visitor.py", "generate_endpoint_mock_class", "    class Test{class_name}({mock_class_name}):"): 0,
     ("helpers/endpoint_utils.py", "format_method_args", "{p['name']}: {p['type']} = {default}"): 0,   # Python-level default of a signature ("None")
-    ("generator/client_generator.py", "generate", "from {resolved_core_package_fqn}.exception_aliases import *  # noqa: F401, F403"): 0,
+    ("generator/client_generator.py", "_write_client_init", "from {resolved_core_package_fqn}.exception_aliases import *  # noqa: F401, F403"): 0,   # dotted package name (validated identifiers)
     ("emit/models_emitter.py", "_generate_init_py", "    '{name}',"): 0,
     ("emitters/core_emitter.py", "emit", '    "{alias_name}",'): 0,
     ("emitters/endpoints_emitter.py", "emit", '"{cls}"'): 0,
@@ -170,7 +170,7 @@ KNOWN: dict[tuple[str, str, str], int] = {
     ("visit/model/dataclass_generator.py", "_generate_untyped_wrapper_class", "escaper: description = escape_docstring_text(description)"): 11,
     ("visit/model/dataclass_generator.py", "_generate_typed_wrapper_class", "escaper: description = escape_docstring_text(description)"): 11,
     ("core/writers/documentation_writer.py", "render_docstring", "escaper: lines[1:] = [escape_docstring_text(line) for line in lines[1:]]"): 12,
-    (U, "generate_url_and_args", '{param_var_name} = quote(str(DataclassSerializer.serialize({param_var_name})), safe="")'): 0,   # sanitised identifier only
+    (U, "generate_url_and_args", '{param_var_name} = quote(serialize_simple(DataclassSerializer.serialize({param_var_name})), safe="")'): 0,   # sanitised identifier only
 }
 # every construction of a DocumentationBlock is an instance of site 12; the functions allowed to build one:
 DOCBLOCK_FUNCS = {
